@@ -58,7 +58,8 @@ vars == <<scn, d2w, w2d, d2d, rc2d, rcbox, rcst, timers, dtimers, drv, wk, cell,
 view == <<scn, d2w, w2d, d2d, rc2d, rcbox, rcst, timers, dtimers, drv, wk, cell, flt, hist>>
 
 -----------------------------------------------------------------------------
-(* Allocation matrix (transcription of Allocator.allocations)               *)
+(* Allocation matrix (transcription of Allocator.allocations).  The derived values are computed ONCE per scenario by   *)
+(* WithDerived and carried in the scenario record (fields m, cols, alloc, cp, acp): the operators below only look them up *)
 RECURSIVE SumClients(_)
 SumClients(ts) == IF ts = <<>> THEN 0 ELSE Head(ts).clients + SumClients(Tail(ts))
 
@@ -66,7 +67,8 @@ ElemTotal(e) == SumClients(e.tasks)                       \* logical clients of 
 ElemClients(e) == IF e.cap > 0 THEN e.cap ELSE ElemTotal(e)
 
 MaxOf(S) == CHOOSE x \in S : \A y \in S : y <= x
-M(s) == MaxOf({1} \cup {ElemClients(s.sched[i]) : i \in 1..Len(s.sched)})   \* Allocator.clients
+ComputeM(s) == MaxOf({1} \cup {ElemClients(s.sched[i]) : i \in 1..Len(s.sched)})   \* Allocator.clients
+M(s) == s.m
 Clients(s) == 0..(M(s) - 1)
 Workers(s) == 1..s.W
 ClientsOf(s, w) == {c \in Clients(s) : s.workerOf[c + 1] = w}
@@ -81,14 +83,15 @@ AssignFrom(k, cores, m) ==
          IN [i \in 1..cnt |-> k] \o AssignFrom(k + 1, cores, m)
 AssignOne(cores, m) == AssignFrom(1, cores, m)
 
-Rows(s, i) == LET t == ElemTotal(s.sched[i]) IN (t + M(s) - 1) \div M(s)    \* task columns of element i
+RowsM(s, i, m) == LET t == ElemTotal(s.sched[i]) IN (t + m - 1) \div m    \* task columns of element i
 
 (* columns: 0 = join point 0; then for every element its rows and its join point *)
-RECURSIVE ColsUpTo(_, _)
-ColsUpTo(s, i) == IF i = 0 THEN <<[k |-> "jp", e |-> 0, r |-> 0]>>
-                  ELSE ColsUpTo(s, i - 1) \o [r \in 1..Rows(s, i) |-> [k |-> "row", e |-> i, r |-> r - 1]]
-                                          \o <<[k |-> "jp", e |-> i, r |-> 0]>>
-Cols(s) == ColsUpTo(s, Len(s.sched))       \* Cols(s)[j+1] describes column index j
+RECURSIVE ColsUpTo(_, _, _)
+ColsUpTo(s, i, m) == IF i = 0 THEN <<[k |-> "jp", e |-> 0, r |-> 0]>>
+                     ELSE ColsUpTo(s, i - 1, m) \o [r \in 1..RowsM(s, i, m) |-> [k |-> "row", e |-> i, r |-> r - 1]]
+                                                \o <<[k |-> "jp", e |-> i, r |-> 0]>>
+ComputeCols(s) == ColsUpTo(s, Len(s.sched), ComputeM(s)) \o <<>>
+Cols(s) == s.cols                          \* Cols(s)[j+1] describes column index j
 NCols(s) == Len(Cols(s))
 Col(s, j) == Cols(s)[j + 1]
 NSteps(s) == Len(s.sched)                  \* number_of_steps = len(join_points) - 1
@@ -108,13 +111,24 @@ CellAt(s, c, j) ==
     IN IF col.k = "row" /\ k < ElemTotal(e) THEN TaskAt(e.tasks, k) ELSE None
 
 HasCell(s, c, j) == Col(s, j).k = "row" /\ CellAt(s, c, j) # None
-Allocated(s) == {<<c, j>> \in Clients(s) \X (0..(NCols(s) - 1)) : HasCell(s, c, j)}
+ComputeAllocated(s) == {cj \in Clients(s) \X (0..(NCols(s) - 1)) : HasCell(s, cj[1], cj[2])}
+Allocated(s) == s.alloc
 
 (* JoinPoint(id, clients_executing_completing_task, any_task_completes_parent) of element e *)
-CpClients(s, e) == {c \in Clients(s) : \E j \in 0..(NCols(s) - 1) : Col(s, j).e = e /\ HasCell(s, c, j) /\ CellAt(s, c, j).t.cp}
-AcpClients(s, e) == {c \in Clients(s) : \E j \in 0..(NCols(s) - 1) :
+ComputeCp(s, e) == {c \in Clients(s) : \E j \in 0..(NCols(s) - 1) : Col(s, j).e = e /\ HasCell(s, c, j) /\ CellAt(s, c, j).t.cp}
+ComputeAcp(s, e) == {c \in Clients(s) : \E j \in 0..(NCols(s) - 1) :
                         Col(s, j).e = e /\ HasCell(s, c, j) /\ ~CellAt(s, c, j).t.cp /\ CellAt(s, c, j).t.acp}
+CpClients(s, e) == IF e = 0 THEN {} ELSE s.cp[e]
+AcpClients(s, e) == IF e = 0 THEN {} ELSE s.acp[e]
 DeclaresCompletedBy(s, e) == e > 0 /\ (CpClients(s, e) # {} \/ AcpClients(s, e) # {})
+
+(* the scenario record with everything derived from the schedule *)
+WithDerived(s0) ==
+    LET s1 == [sched |-> s0.sched, workerOf |-> s0.workerOf, W |-> s0.W, m |-> ComputeM(s0), cols |-> ComputeCols(s0)]
+        s2 == [sched |-> s1.sched, workerOf |-> s1.workerOf, W |-> s1.W, m |-> s1.m, cols |-> s1.cols,
+               alloc |-> ComputeAllocated(s1), cp |-> <<>>, acp |-> <<>>]
+    IN [s2 EXCEPT !.cp = [e \in 1..Len(s0.sched) |-> ComputeCp(s1, e)] \o <<>>,
+                  !.acp = [e \in 1..Len(s0.sched) |-> ComputeAcp(s1, e)] \o <<>>]
 
 (* ClientAllocations.tasks(index) of worker w is non-empty: a join point or some client of w has a cell *)
 NonEmptyCol(s, w, j) == Col(s, j).k = "jp" \/ \E c \in ClientsOf(s, w) : HasCell(s, c, j)
